@@ -22,7 +22,13 @@ RULE = (
     "Repeated writes: in about a third of the random cases (and a third of the enumerated ones) the one file object "
     "read from x is written 2-3 times in a row, each time to a fresh destination of its own (buffers, or paths of one "
     "directory); once all writes are done one of the destinations (chosen by the case) is looked at and its content is "
-    "the observed output, which must be x exactly as the model computes it for a single write."
+    "the observed output, which must be x exactly as the model computes it for a single write. "
+    "Class family and earlier reads: in about three of ten random cases (and every fourth enumerated one) the file class "
+    "that declares the case's sections belongs to a small family of file classes with ANOTHER section list (its parent "
+    "declares the other list; or a class derived from it does; or the class itself declared the other list first and its "
+    "SECTIONS is re-declared afterwards), and the relative (or the class under its earlier declaration) reads a content of "
+    "its own before the observed read; the observed read and write must be what the model computes for the case's section "
+    "list and x alone."
 )
 ASSUMPTIONS = ["sections are the harness's raw-storing sections (fixed line count / pattern-terminated); a section reading at end of input stores []"]
 TRUSTED = ["Python re.search for the AST subset"]
@@ -62,10 +68,51 @@ def write_each(f, io, binary, extra, n):
         shutil.rmtree(d, ignore_errors=True)
 
 
+def mk_family(case, binary):
+    """the file class of the case inside a family of file classes: `before` = {"who", "secs", "x"} names a relative with
+    a section list of its own (section classes of its own as well) that reads the content `x` BEFORE the observed read:
+    who = "parent": the case's class derives from the relative; "child": the relative derives from the case's class;
+    "redeclared": the case's class itself declared the other list, read, and has SECTIONS re-declared afterwards"""
+    from cfinterface.files.sectionfile import SectionFile
+
+    b = case["before"]
+    io = case.get("io")
+    classes = fsup.mk_section_classes(case["secs"])
+    others = fsup.mk_section_classes(b["secs"])
+
+    def ns(cl):
+        d = {"SECTIONS": cl, "STORAGE": "BINARY" if binary else fsup.text_storage("TEXT", len(cl)), "__slots__": []}
+        if io:
+            d["ENCODING"] = io["enc"]
+        return d
+
+    x0 = codec.dec_str(b["x"])
+    if binary:
+        x0 = x0.encode("latin-1")
+    if b["who"] == "parent":
+        A = type("SFBase", (SectionFile,), ns(others))
+        SF = fsup.derived(type("SF", (A,), ns(classes)), len(classes))
+        fsup.read_text(A, x0, io)
+    elif b["who"] == "child":
+        SF0 = type("SF", (SectionFile,), ns(classes))
+        SF = fsup.derived(SF0, len(classes))
+        B = type("SFMore", (SF,), ns(others))
+        fsup.read_text(B, x0, io)
+    else:
+        SF0 = type("SF", (SectionFile,), ns(others))
+        SF = fsup.derived(SF0, len(classes))
+        fsup.read_text(SF, x0, io)
+        SF0.SECTIONS = classes
+    return SF, classes
+
+
 def run_impl(case):
     try:
         binary = bool(case.get("binary"))
-        SF, classes = fsup.mk_section_file(case["secs"], io=case.get("io"), binary=binary)
+        if case.get("before"):
+            SF, classes = mk_family(case, binary)
+        else:
+            SF, classes = fsup.mk_section_file(case["secs"], io=case.get("io"), binary=binary)
         x = codec.dec_str(case["x"])
         if binary:
             # binary storage: the same content as bytes (one byte per character); the section family
@@ -101,9 +148,9 @@ def judge(case, obs, resp):
     if not resp["model_holds"]:
         return {"status": "error", "why": f"the MODEL violates Spec.C13.holds: {c12.show(resp.get('model'), False)}"}
     if "exc" in obs:
-        return {"status": "oracle", "why": f"SectionFile read/write raised {obs['exc']}: {obs.get('msg')}{show_writes(case)}"}
+        return {"status": "oracle", "why": f"SectionFile read/write raised {obs['exc']}: {obs.get('msg')}{show_writes(case)}{show_before(case)}"}
     if not resp["holds"]:
-        return {"status": "oracle", "why": f"x={codec.dec_str(case['x'])!r}: got {c12.show(obs, False)}; required {c12.show(resp.get('model'), False)}{show_writes(case)}"}
+        return {"status": "oracle", "why": f"x={codec.dec_str(case['x'])!r}: got {c12.show(obs, False)}; required {c12.show(resp.get('model'), False)}{show_writes(case)}{show_before(case)}"}
     if not resp["agree"]:
         return {"status": "corr", "why": "model and implementation disagree"}
     return {"status": "ok", "why": ""}
@@ -118,6 +165,17 @@ def show_writes(case):
             f"its own ({where}); 'written' is what destination number {w['observe'] + 1} holds once all writes are done]")
 
 
+def show_before(case):
+    b = case.get("before")
+    if not b:
+        return ""
+    who = {"parent": "the PARENT class of the file class declares another section list",
+           "child": "a class DERIVED from the file class declares another section list",
+           "redeclared": "the file class itself first declared another section list (SECTIONS re-declared to the case's list afterwards)"}[b["who"]]
+    return (f" [class family: {who}, {json.dumps(b['secs'])}, and read the content {codec.dec_str(b['x'])!r} under it before the "
+            f"observed read; the required result is the one of the case's own section list and x alone]")
+
+
 def nontrivial(case):
     return len(case["secs"]) > 0 and len(case["x"]) > 0
 
@@ -128,6 +186,7 @@ def features(case, obs):
     f = [f"nsecs={len(case['secs'])}", f"nlines={min(n, 12)}"]
     w = case.get("writes")
     f.append("writes=1" if not w else f"writes={w['n']},observed={w['observe'] + 1}")
+    f.append("before=" + (case["before"]["who"] if case.get("before") else "none"))
     f.append("empty_content" if not x else ("final_newline" if x.endswith("\n") else "no_final_newline"))
     if isinstance(obs, dict) and "elems" in obs:
         declared = [e for e in obs["elems"] if "cls" in e]
@@ -199,7 +258,35 @@ def random_case(rng):
     case["query_in_write"] = rng.random() < 0.25
     if rng.random() < 0.33:
         case["writes"] = rand_writes(rng)
+    # class family / earlier reads: drawn from a stream of its own (derived from the case), so that the
+    # streams of the dimensions above stay what they were
+    frng = random.Random("c13-family|" + json.dumps(case, sort_keys=True))
+    if frng.random() < 0.3:
+        case["before"] = rand_before(frng, secs, x)
     return case
+
+
+WARM = ["w 1\n", "END\n", "x BEG\n", "\n", "E 2\n", "## 3\n"]
+
+
+def rand_before(rng, secs, x):
+    """a relative's section list (the case's list shortened, lengthened, or another list altogether) and the content
+    it reads before the observed read (the case's own content, or a few lines of its own; ASCII, so that every
+    declared encoding holds it)"""
+    r = rng.random()
+    if r < 0.3 and secs:
+        other = secs[:-1]
+    elif r < 0.6 and len(secs) < 4:
+        other = secs + [rand_sec(rng)]
+    else:
+        other = [rand_sec(rng) for _ in range(rng.randrange(0, 4))]
+    if rng.random() < 0.5:
+        x0 = x
+    else:
+        x0 = "".join(rng.choice(WARM) for _ in range(rng.randrange(0, 6)))
+        if x0 and rng.random() < 0.3:
+            x0 = x0[:-1]
+    return {"who": rng.choice(["parent", "parent", "child", "redeclared"]), "secs": other, "x": codec.enc_str(x0)}
 
 
 def rand_writes(rng):
@@ -228,6 +315,11 @@ def exhaustive_cases():
                 k += 1
                 if k % 3 == 0:  # every third one: two writes in a row, the first / the second destination observed
                     case["writes"] = {"n": 2, "observe": (k // 3) % 2}
+                if k % 4 == 1:  # every fourth one: a relative with another section list reads first
+                    j = k // 4
+                    other = [list(secs[:-1]), list(secs) + [pool[j % len(pool)]], [pool[(j // 3) % len(pool)]]][j % 3]
+                    case["before"] = {"who": ["parent", "child", "redeclared"][(j // 3) % 3], "secs": other,
+                                      "x": codec.enc_str(x if j % 2 else "w 1\nEND\nE 2\n")}
                 yield case
 
 
@@ -266,6 +358,14 @@ def cases_of(chunk):
 
 
 def shrinks(case):
+    b = case.get("before")
+    if b:
+        yield {k: v for k, v in case.items() if k != "before"}
+        bl = codec.dec_str(b["x"]).splitlines(True)
+        for i in range(len(bl)):
+            yield {**case, "before": {**b, "x": codec.enc_str("".join(bl[:i] + bl[i + 1 :]))}}
+        for i in range(len(b["secs"])):
+            yield {**case, "before": {**b, "secs": b["secs"][:i] + b["secs"][i + 1 :]}}
     w = case.get("writes")
     if w:
         yield {k: v for k, v in case.items() if k != "writes"}
